@@ -126,8 +126,24 @@ def evaluate(ctx, cases):
         try:
             if c['what'] == 'cyclepoints':
                 ps, pe, pz = c['switches']
-                fig, ax = plt.subplots()
-                implutil.quiet(plot_cyclepoints_df, df, sig, fs, plot_sig=ps, plot_extrema=pe, plot_zerox=pz, xlim=xlim, ax=ax)
+                hsh = c['seed'] + (0 if c['win'] is None else c['win'][1])
+                if hsh % 4 == 1 and len(df) >= 6:
+                    # a ROW SUBSET of the table (the bursting cycles only, or every other cycle): its rows are no longer neighbours, every one of
+                    # its cyclepoints is still to be drawn
+                    sub = df[df['is_burst'].values] if int(df['is_burst'].sum()) >= 3 and int(np.sum(np.diff(np.flatnonzero(df['is_burst'].values)) > 1)) >= 1 else df.iloc[::2]
+                    df = sub
+                    centres = [int(x) for x in df['sample_' + cen].values]
+                    sides = sorted(set(int(x) for x in df['sample_last_' + side].values) | set(int(x) for x in df['sample_next_' + side].values))
+                    rises = [int(x) for x in df['sample_zerox_rise'].values]; decays = [int(x) for x in df['sample_zerox_decay'].values]
+                if hsh % 4 == 2:
+                    # no axes given while ANOTHER figure is open (an earlier plot of the session): the function draws into a figure of its own
+                    decoy = plt.figure().add_subplot(111); decoy.plot([0, 1], [5, 5])
+                    implutil.quiet(plot_cyclepoints_df, df, sig, fs, plot_sig=ps, plot_extrema=pe, plot_zerox=pz, xlim=xlim)
+                    ax = plt.gca()
+                    if len(decoy.get_lines()) != 1 or ax is decoy: msg = 'with ax=None the cyclepoints were drawn into a figure that was already open'
+                else:
+                    fig, ax = plt.subplots()
+                    implutil.quiet(plot_cyclepoints_df, df, sig, fs, plot_sig=ps, plot_extrema=pe, plot_zerox=pz, xlim=xlim, ax=ax)
                 L = _lines(ax)
                 if ps:
                     sl, L = L[0], L[1:]
@@ -152,7 +168,9 @@ def evaluate(ctx, cases):
                 else:
                     # (a third of the summaries receive the recording as a pandas Series with a 1-based index: markers are positions, not labels)
                     sarg = pd.Series(sig, index=np.arange(1, len(sig) + 1)) if (w is not None and (w[0] + 2 * w[1]) % 3 == 1) or (w is None and len(df) % 3 == 1) else sig
-                    implutil.quiet(plot_burst_detect_summary, df, sarg, fs, dict(th), xlim=xlim, plot_only_result=c['only'], interp=c['interp'])
+                    # (the thresholds in the documented order, or with min_n_cycles FIRST - as after the shorthand renaming of a Bycycle object)
+                    tharg = dict(th) if (c['seed'] + len(df)) % 2 == 0 else dict([(k, v) for k, v in th.items() if k == 'min_n_cycles'] + [(k, v) for k, v in th.items() if k != 'min_n_cycles'])
+                    implutil.quiet(plot_burst_detect_summary, df, sarg, fs, tharg, xlim=xlim, plot_only_result=c['only'], interp=c['interp'])
                 axes = plt.gcf().get_axes()
                 z = zscore(sig)
                 L = _lines(axes[0])
